@@ -24,6 +24,8 @@ import Qfx.Drv.Codec
 import Qfx.Drv.CodecMon
 import Qfx.Drv.Sock
 import Qfx.Drv.SockMon
+import Qfx.Drv.Loop
+import Qfx.Drv.LoopMon
 namespace Qfx.Drv
 
 def families : List (String × Family) :=
@@ -41,6 +43,7 @@ def families : List (String × Family) :=
   , ("codec", codecFamily), ("codec-mon", codecMonFamily)
   , ("sock", sockFamily), ("sock-mon", sockMonFamily)
   , ("sockj", sockFamily), ("sockj-mon", sockMonFamily)
+  , ("loop", loopFamily), ("loop-mon", loopMonFamily)
   ]
 
 end Qfx.Drv
